@@ -1480,12 +1480,18 @@ func emitCore(o *hx.Out, p *Prog, cr *compRes, gores map[string]goRes) {
 	o.Line(p.CoreTokens, hx.Hex(cr.script))
 	o.Line("layout", "ok")
 	offs := map[string]int{}
+	npar := map[string]int{}
 	for _, m := range cr.methods {
 		offs[m.id] = m.start
+		npar[m.id] = m.nparams
 	}
 	for _, f := range p.CoreFuncs {
 		if off, ok := offs[f]; ok {
 			o.Line("offset "+f, fmt.Sprint(off))
+			// the parameter count the real debug info lists vs the INITSLOT operand of the model's script
+			// (Lean: C14.debug_params_correct)
+			o.Count("core:params-lines")
+			o.Line("params "+f, fmt.Sprint(npar[f]))
 		} else {
 			o.Line("offset "+f, "none")
 		}
